@@ -1,6 +1,7 @@
 ------------------------------ MODULE Gen_Multisig ------------------------------
 (* Behaviour generator: TLC -simulate walks Multisig.tla (T = 2) and prints      *)
-(* every completed walk as the list of transactions [op, s, tr, ok, t]; vdriver  *)
+(* every completed walk as the list of transactions [op, s, tr, ok, late, t];    *)
+(* (late: the vote was created a few seconds before its block) vdriver           *)
 (* replays each list on the real chain on wallet W1 (3 real threshold shares,    *)
 (* amounts x1000, one time unit = half a week).  A walk alternates a clock step  *)
 (* (0..MaxStep) and a transaction; pruning is internal to the contract.          *)
@@ -10,16 +11,18 @@ VARIABLES hist, gphase
 gvars == <<vars, hist, gphase>>
 GInit == Init /\ hist = <<>> /\ gphase = "op"
 NoTr == [to |-> "none", amt |-> 0]
-G_Register == Register /\ hist' = Append(hist, [op |-> "register", s |-> "none", tr |-> NoTr, ok |-> TRUE, t |-> now])
-G_Vote == \E s \in Signer \cup Stranger, tr \in Transfers, ok \in BOOLEAN :
+G_Register == Register /\ hist' = Append(hist, [op |-> "register", s |-> "none", tr |-> NoTr, ok |-> TRUE, late |-> FALSE, t |-> now])
+G_Vote == \E s \in Signer \cup Stranger, tr \in Transfers, ok, late \in BOOLEAN :
             /\ (s \in Stranger => ok)
-            /\ Vote(s, tr, ok) /\ hist' = Append(hist, [op |-> "vote", s |-> s, tr |-> tr, ok |-> ok, t |-> now])
+            /\ Vote(s, tr, ok, late) /\ hist' = Append(hist, [op |-> "vote", s |-> s, tr |-> tr, ok |-> ok, late |-> late, t |-> now])
 G_Clock == /\ gphase = "clock" /\ gphase' = "op" /\ Len(hist) < GenLen
            /\ \E d \in 0..MaxStep : now + d <= MaxTime /\ now' = now + d
            /\ UNCHANGED <<registered, bal, prop, execs, counted, last, hist>>
 G_Prune == gphase = "op" /\ Prune /\ UNCHANGED <<hist, gphase>>
 G_Op == /\ gphase = "op" /\ Len(hist) < GenLen /\ gphase' = "clock"
-        /\ IF ~registered /\ Len(hist) < 2 THEN (G_Register \/ G_Vote) ELSE G_Vote
+        \* the wallet is registered by the second transaction at the latest (a walk picks uniformly among the many
+        \* votes and the one registration, so unregistered walks - every vote fails - would dominate otherwise)
+        /\ IF ~registered /\ Len(hist) < 2 THEN (G_Register \/ (Len(hist) = 0 /\ G_Vote)) ELSE G_Vote
 G_Done == /\ gphase = "clock" /\ Len(hist) = GenLen /\ gphase' = "done" /\ UNCHANGED <<vars, hist>>
 GNext == G_Clock \/ G_Prune \/ G_Op \/ G_Done
 GSpec == GInit /\ [][GNext]_gvars
